@@ -21,7 +21,7 @@ RULE = ("Hypothesis builds rules from every FREQ, COUNT xor UNTIL (date / floati
         "the order of the text, re-encoding is byte-identical, and dateutil expands the same first 25 occurrences from "
         "rrule(**own mapping of the supplied parts) as from rrulestr(text) (RSCALE/SKIP/leap-month rules excluded from that "
         "clause and counted). Non-trivial: >= 2 BYxxx parts or an ordinal weekday or UNTIL; distinct by hash.")
-ASSUMPTIONS = ["dateutil.rrule is the 'standard recurrence expander' of the statement", "UNTIL is a date, floating or UTC date-time (RFC 5545)"]
+ASSUMPTIONS = ["dateutil.rrule is the 'standard recurrence expander' of the statement", "UNTIL is a date, a floating date-time or an aware date-time (written in UTC: RFC 5545 gives UNTIL no TZID)"]
 REQUIRED_CLASSES = ["has-until", "ordinal-weekday", "leap-month", "rscale", "path:kwargs", "path:dict", "path:setitem", "occurrences-compared"]
 
 FREQS = ["SECONDLY", "MINUTELY", "HOURLY", "DAILY", "WEEKLY", "MONTHLY", "YEARLY"]
@@ -72,6 +72,12 @@ def dec_value(key, v):
         if v["k"] == "date":
             d = date(*v["v"])
             return d, ("date", d)
+        if v["k"] == "zoned":
+            # an aware date-time in a zone other than the UTC object itself (a UTC alias or a real zone): UNTIL has no TZID
+            # parameter, so the instant can only be written in UTC
+            import zoneinfo as _zi
+            d = datetime(*v["v"], tzinfo=_zi.ZoneInfo(v["tz"]))
+            return d, ("datetime", d.astimezone(timezone.utc).replace(tzinfo=None), True)
         d = datetime(*v["v"], tzinfo=timezone.utc if v["k"] == "utc" else None)
         return d, ("datetime", d.replace(tzinfo=None), v["k"] == "utc")
     if ku in ("BYDAY", "BYWEEKDAY", "WKST"):
@@ -332,10 +338,13 @@ def rules(draw):
     if end == "count":
         parts.append([key("COUNT"), scalar_or_list([draw(st.integers(1, 400))])])
     elif end == "until":
-        k = draw(st.sampled_from(["date", "floating", "utc"]))
+        k = draw(st.sampled_from(["date", "floating", "utc", "utc", "zoned"]))
         y, m, d = draw(st.integers(1997, 2030)), draw(st.integers(1, 12)), draw(st.integers(1, 28))
         if k == "date":
             v = {"k": "date", "v": [y, m, d]}
+        elif k == "zoned":
+            v = {"k": k, "v": [y, m, d, draw(st.integers(3, 23)), draw(st.integers(0, 59)), draw(st.integers(0, 59))],
+                 "tz": draw(st.sampled_from(["Etc/UTC", "Zulu", "Etc/UTC", "Europe/Berlin", "America/New_York", "Asia/Kolkata"]))}
         else:
             v = {"k": k, "v": [y, m, d, draw(st.integers(0, 23)), draw(st.integers(0, 59)), draw(st.integers(0, 59))]}
         parts.append([key("UNTIL"), scalar_or_list([v])])
